@@ -471,7 +471,8 @@ pub fn exec(op: &Op) -> R {
             Ok(())
         }),
         Op::CloneLate(slot) => exec_clone_late(*slot),
-        Op::CloneDead(k) => exec_clone_dead(*k),
+        Op::CloneDead(k) => exec_clone_dead(*k, false),
+        Op::CloneFromDead(k) => exec_clone_dead(*k, true),
         Op::DowngradeOwn(k) => world::with(|w| {
             let &(me, np) = w.dying_stack.last().ok_or("downgradeown: not in a destructor")?;
             let node = unsafe { &*np };
@@ -806,20 +807,57 @@ fn exec_make_mut(slot: usize) -> R {
     Ok(())
 }
 
-fn exec_clone_dead(k: usize) -> R {
+fn exec_clone_dead(k: usize, clone_from: bool) -> R {
     // only meaningful inside a destructor: clone own stored handle k whose target is dead
-    let p = world::with(|w| -> Result<(*const Rc<Node>, ObjId, ObjId), String> {
+    let p = world::with(|w| -> Result<(*const Rc<Node>, Option<*const Rc<Node>>, ObjId, ObjId), String> {
         let &(me, np) = w.dying_stack.last().ok_or("clonedead: not in a destructor")?;
         let node = unsafe { &*np };
         let v = node.out.try_borrow().map_err(|_| "clonedead: busy")?;
         let h = v.get(k).ok_or("clonedead: no such stored handle")?;
-        let t = *w.objs[me as usize].held.get(k).ok_or("clonedead: ledger")?;
+        let held = &w.objs[me as usize].held;
+        let t = *held.get(k).ok_or("clonedead: ledger")?;
         if w.objs[t as usize].state == St::Alive {
             return inv("clonedead: target is alive");
         }
-        Ok((h as *const Rc<Node>, me, t))
+        // a second own handle to the same destroyed target, if any
+        let other = (0..held.len().min(v.len())).find(|&j| j != k && held[j] == t).map(|j| &v[j] as *const Rc<Node>);
+        Ok((h as *const Rc<Node>, other, me, t))
     })?;
-    let (hp, me, t) = p;
+    let (hp, other, me, t) = p;
+    if clone_from {
+        // `Clone::clone_from` is a cloning entry point too: assigning a dead handle from a dead handle
+        // (to the same destroyed object), or a live one from a dead one, must abort just the same
+        {
+            let out = std::io::stdout();
+            let mut o = out.lock();
+            let _ = writeln!(o, "BEFORE-CLONE me={} target={} clone_from same_target={}", me, t, other.is_some());
+            let _ = o.flush();
+        }
+        match other {
+            Some(src) => {
+                let _l = LibGuard::enter();
+                // the destination is written through a pointer derived from the RefCell's storage:
+                // nobody else looks at it while the destructor script runs
+                unsafe { Clone::clone_from(&mut *(hp as *mut Rc<Node>), &*src) };
+            }
+            None => {
+                let mut dst = std::mem::ManuallyDrop::new(unsafe { std::ptr::read(hp) });
+                let _l = LibGuard::enter();
+                // destination and source are the same dead handle value
+                unsafe { Clone::clone_from(&mut *dst, &*hp) };
+            }
+        }
+        {
+            let out = std::io::stdout();
+            let mut o = out.lock();
+            let _ = writeln!(o, "AFTER-CLONE me={} target={}", me, t);
+            let _ = o.flush();
+        }
+        world::with(|w| {
+            w.viol("deadclone", true, format!("clone_from on a handle to destroyed #{} inside the destructor of #{} returned", t, me));
+        });
+        return Ok(());
+    }
     {
         let out = std::io::stdout();
         let mut o = out.lock();
@@ -945,7 +983,7 @@ fn op_touches(w: &World, op: &Op) -> Option<Vec<ObjId>> {
         }
         Op::DropWeak(_) => {}
         Op::Script(o, _, _) => v.push(*o),
-        Op::CloneDead(_) | Op::DropDead(_) | Op::DowngradeOwn(_) | Op::EscapeOwn(_) | Op::CloneLate(_) => {}
+        Op::CloneDead(_) | Op::CloneFromDead(_) | Op::DropDead(_) | Op::DowngradeOwn(_) | Op::EscapeOwn(_) | Op::CloneLate(_) => {}
         Op::Shallow(o) | Op::RawRelease(o) | Op::CloneBomb(o) => v.push(*o),
     }
     Some(v)
@@ -980,7 +1018,7 @@ pub fn run_scripts(node: &Node, when: When) {
                 return inv("history stopped");
             }
             match &op {
-                Op::Panic | Op::CloneDead(_) | Op::DropDead(_) | Op::DowngradeOwn(_) | Op::EscapeOwn(_) => return Ok(()),
+                Op::Panic | Op::CloneDead(_) | Op::CloneFromDead(_) | Op::DropDead(_) | Op::DowngradeOwn(_) | Op::EscapeOwn(_) => return Ok(()),
                 Op::Upgrade(_) => return Ok(()),
                 _ => {}
             }
